@@ -15,6 +15,12 @@ import (
 )
 
 func init() {
+	mutant(&Mutant{Name: "c10-whitespace-lookahead-unbounded", Property: "C10", File: "html/html.go",
+		Old: "\t\t\t\t\t\tif maxWhitespaceLookahead < i {\n", New: "\t\t\t\t\t\tif maxWhitespaceLookahead < 0 {\n",
+		Rule: "R10.19", Construct: "case html.TextToken/look-ahead loop#1"})
+	mutant(&Mutant{Name: "c10-depth-from-the-document", Property: "C10", File: "html/html.go",
+		Old: "\t\t\t\t\tparams[\"nesting\"] = strconv.Itoa(nesting + 1) // the content may be HTML again: iframe, or a type attribute that says so\n", New: "\t\t\t\t\tif _, ok := params[\"nesting\"]; !ok {\n\t\t\t\t\t\tparams[\"nesting\"] = strconv.Itoa(nesting + 1)\n\t\t\t\t\t}\n",
+		Rule: "R10.14", Construct: "passes the depth on"})
 	mutant(&Mutant{Name: "c10-runelen-unchecked", Property: "C10", File: "js/util.go",
 		Old: "\t\t\t\t\tif m == -1 {\n\t\t\t\t\t\ti++\n\t\t\t\t\t\tcontinue\n\t\t\t\t\t} else if num < 256 && quote == byte(num) {", New: "\t\t\t\t\tif num < 256 && quote == byte(num) {",
 		Rule: "R10.18", Construct: "is tested before it is used as a length"})
@@ -53,7 +59,7 @@ func init() {
 		Old: "\t\t\tdefer os.Remove(out.Name())\n", New: "",
 		Rule: "R10.13", Construct: "temporary file out removed before returning"})
 	mutant(&Mutant{Name: "c10-iframe-nesting-unbounded", Property: "C10", File: "html/html.go",
-		Old: "rawTagHash == Iframe && nesting < maxIframeNesting {", New: "rawTagHash == Iframe {",
+		Old: "(rawTagHash == Style || rawTagHash == Script || rawTagHash == Iframe) && nesting < maxIframeNesting {", New: "rawTagHash == Style || rawTagHash == Script || rawTagHash == Iframe && nesting < maxIframeNesting {",
 		Rule: "R10.14", Construct: "is depth-bounded"})
 	mutant(&Mutant{Name: "c10-iframe-nesting-not-passed-on", Property: "C10", File: "html/html.go",
 		Old: "strconv.Itoa(nesting + 1)", New: "strconv.Itoa(nesting)",
@@ -105,6 +111,7 @@ func runC10(c *Ctx) {
 	c.r128("R10.16")
 	c.r1017()
 	c.r1018()
+	c.r1019()
 	// a look-ahead past the end of the input must not index past the token buffer (clause (e) of the token buffer rules)
 	c.alsoUnder(map[string]string{"R03.5": "R10.10", "R05.12": "R10.10", "R06.8": "R10.10"}, func(construct string) bool {
 		return strings.Contains(construct, "index clamped") || strings.Contains(construct, "early ends of the read loop")
